@@ -194,7 +194,7 @@ inductive ModArg where
   | map : List (List Char × Opnd) → ModArg
   deriving Repr
 
-/-- `Markup.__mod__` on the fragment (non-empty mapping, tuple, single string) -/
+/-- `Markup.__mod__` on the fragment (mapping, tuple, single string) -/
 def mMod (esc : Bool → List Char → List Char) (fmt : List Char) (a : ModArg) :
     Except FmtErr (List Char) :=
   match parseFmt (fmt.length + 1) fmt [] with
@@ -203,9 +203,7 @@ def mMod (esc : Bool → List Char → List Char) (fmt : List Char) (a : ModArg)
     match a with
     | .one o => fmtPos ps [escOpnd esc true o]
     | .tup os => fmtPos ps (os.map (escOpnd esc true))
-    | .map kvs =>
-        if kvs.isEmpty then .error .unsupported   -- `% {}`: C and Python differ (known finding)
-        else fmtMap ps (kvs.map fun (k, o) => (k, escOpnd esc true o))
+    | .map kvs => fmtMap ps (kvs.map fun (k, o) => (k, escOpnd esc true o))
 
 /-! ### Attrs -/
 
@@ -244,14 +242,23 @@ def orKept (self : Attrs) (attrs : List (Name × Option (List Char))) : Attrs :=
     if (orRemove attrs).contains p.1 then none
     else some (p.1, (lastVal p.1 (orRepl self attrs)).getD p.2)
 
-/-- `[(an, av) for an, av in attrs if an not in self and an not in remove]` -/
-def orNew (self : Attrs) (attrs : List (Name × Option (List Char))) : Attrs :=
-  attrs.filterMap fun p =>
-    match p.2 with
-    | some v => if !self.has p.1 && !(orRemove attrs).contains p.1 then some (p.1, v) else none
-    | none => none
+/-- the inner `for … else` of `Attrs.__or__`: overwrite the value at the first
+    occurrence of the name, or append -/
+def upsert (n : Name) (v : List Char) : Attrs → Attrs
+  | [] => [(n, v)]
+  | (k, w) :: rest => if k = n then (n, v) :: rest else (k, w) :: upsert n v rest
 
-/-- `Attrs.__or__` exactly as the comprehensions in core.py -/
+/-- one iteration of the `new` loop -/
+def orNewStep (self : Attrs) (remove : List Name) (acc : Attrs) (p : Name × Option (List Char)) : Attrs :=
+  match p.2 with
+  | some v => if self.has p.1 || remove.contains p.1 then acc else upsert p.1 v acc
+  | none => acc
+
+/-- the `new` list built by the loop in `Attrs.__or__` -/
+def orNew (self : Attrs) (attrs : List (Name × Option (List Char))) : Attrs :=
+  attrs.foldl (orNewStep self (orRemove attrs)) []
+
+/-- `Attrs.__or__` exactly as the comprehensions and the loop in core.py -/
 def Attrs.or (self : Attrs) (attrs : List (Name × Option (List Char))) : Attrs :=
   orKept self attrs ++ orNew self attrs
 
